@@ -34,6 +34,7 @@ func edgeOperands(thorough bool) [][]byte {
 		{0xff, 0xff, 0xff, 0x7f}, {0xff, 0xff, 0xff, 0xff}, {0x00, 0x00, 0x00, 0x80, 0x00},
 		{0xff, 0xff, 0xff, 0xff, 0xff, 0xff, 0xff, 0x7f}, {0, 0, 0, 0, 0, 0, 0, 0x80, 0x00},
 		fill(20, 0x31), rep(0x01, 520), rep(0x01, 521),
+		{0x01, 0, 0, 0, 0, 0, 0, 0, 0x01}, {0x01, 0, 0, 0, 0x01},
 	}
 	if thorough {
 		e = append(e, []byte{0x00, 0x00}, []byte{0x01, 0x80}, []byte{0x03}, []byte{0x04}, []byte{0x18}, []byte{0x19}, []byte{0x00, 0x00, 0x01},
@@ -276,6 +277,11 @@ func syntacticNesting(path [][]byte) int {
 
 // c05BFS: breadth-first exploration of programs with canonical-state deduplication.
 func c05BFS(r *rep.Run, p *Prop, chk func(scriptCase) []rep.Finding, thorough bool) {
+	c05BFSJob(r, p, "bfs", chk, thorough, false)
+}
+
+// c05BFSJob runs the program search; mixedOnly restricts it to the mixed alphabet.
+func c05BFSJob(r *rep.Run, p *Prop, space string, chk func(scriptCase) []rep.Finding, thorough bool, mixedOnly bool) {
 	type job struct {
 		name   string
 		syms   [][]byte
@@ -302,6 +308,9 @@ func c05BFS(r *rep.Run, p *Prop, chk func(scriptCase) []rep.Finding, thorough bo
 		{"control-flow", ctlAlphabet(), cd, [][]byte{nil, {0x51}, {0x00, 0x51}}, []uint32{0, fGenesis, fMinIf, fGenesis | fMinIf | fMinData}},
 		{"mixed", mixAlphabet(), md, seeds2, []uint32{0, fGenesis}},
 	}
+	if mixedOnly {
+		jobs = jobs[1:]
+	}
 	totalStates, totalTrans := 0, 0
 	for _, j := range jobs {
 		for _, f := range j.flags {
@@ -323,7 +332,7 @@ func c05BFS(r *rep.Run, p *Prop, chk func(scriptCase) []rep.Finding, thorough bo
 							paths = append(paths, np)
 						}
 					}
-					(&Space[scriptCase]{P: p, Name: "bfs", Check: chk}).Slice(r, cases)
+					(&Space[scriptCase]{P: p, Name: space, Check: chk}).Slice(r, cases)
 					totalTrans += len(cases)
 					// successors: canonical state of the prefix decides whether it is expanded further
 					var next [][]int
